@@ -51,11 +51,18 @@ type pcList struct {
 	cond *term.Node
 	prev *pcList
 	n    int
+	// implied marks a condition that follows from the earlier ones (the solver refuted its
+	// negation): it is never sent to the solver again, it only feeds the syntactic facts
+	// (bindings, ranges, guard refutation).
+	implied bool
 }
 
 func (p *pcList) slice() []*term.Node {
 	var out []*term.Node
 	for q := p; q != nil; q = q.prev {
+		if q.implied {
+			continue
+		}
 		out = append(out, q.cond)
 	}
 	// reverse
@@ -79,6 +86,7 @@ type trailEntry struct {
 type altern struct {
 	k     int
 	model *term.Model
+	guard *term.Node // the condition this alternative stands for (checked when the decision is replayed)
 }
 
 type choicePoint struct {
@@ -111,14 +119,14 @@ type Unsupported struct{ Msg string }
 func (u Unsupported) Error() string { return "unsupported: " + u.Msg }
 
 type specCtx struct {
-	lazy int // step budget of a lazily attempted merge (0 = none)
+	lazy       int     // step budget of a lazily attempted merge (0 = none)
 	landed     bool    // an inner merge ended exactly at this arm's join block
 	landedPhis []Value // ... with these values for the join block's phis
-	frame *Frame
-	join  *ssa.BasicBlock
-	g     *G
-	depth int
-	steps int
+	frame      *Frame
+	join       *ssa.BasicBlock
+	g          *G
+	depth      int
+	steps      int
 }
 
 // State is the mutable interpreter state of one harness instance.
@@ -140,37 +148,39 @@ type State struct {
 	globals  map[*ssa.Global]*Object
 	initDone bool
 
-	cps       []*choicePoint
-	forced    []int
-	forcedPos int
-	decisions []int
-	spec      *specCtx
+	cps         []*choicePoint
+	forced      []int
+	forcedPos   int
+	expectGuard *term.Node
+	decisions   []int
+	spec        *specCtx
 
 	obligs []Obligation
 	res    *InstanceResult
 	solver *pathSolver
 	pool   *smt.Pool
 
-	mapDesc   bool
-	lockOwner map[*Object]int // mutex object -> goroutine id holding it
-	writeLog  []string        // stores into package-level state after init (C15)
-	trackGlob bool
-	globalObj map[*Object]string // objects reachable from globals at end of init -> label
+	mapDesc    bool
+	lockOwner  map[*Object]int // mutex object -> goroutine id holding it
+	writeLog   []string        // stores into package-level state after init (C15)
+	trackGlob  bool
+	globalObj  map[*Object]string // objects reachable from globals at end of init -> label
 	globalMaps map[*MapObj]string
-	inputVars []inputVar
-	deadline  time.Time
-	stepLimit int64
-	loopBound int
-	steps     int64
-	pathSteps int64
-	redirect  map[string]*ssa.Function
-	callDepth int
-	rsSites   map[string]bool
-	sizeMemo  map[types.Type]int
-	guard     *term.Node // guard of the alternative being processed by mapMux
-	subst     map[*term.Node]*term.Node
-	lazyLimit int
-	bounds    map[*term.Node][2]uint64
+	pcFacts    map[*term.Node]struct{} // conjuncts of the path condition (for syntactic refutation of guards)
+	inputVars  []inputVar
+	deadline   time.Time
+	stepLimit  int64
+	loopBound  int
+	steps      int64
+	pathSteps  int64
+	redirect   map[string]*ssa.Function
+	callDepth  int
+	rsSites    map[string]bool
+	sizeMemo   map[types.Type]int
+	guard      *term.Node // guard of the alternative being processed by mapMux
+	subst      map[*term.Node]*term.Node
+	lazyLimit  int
+	bounds     map[*term.Node][2]uint64
 }
 
 type inputVar struct {
@@ -326,6 +336,9 @@ func (st *State) noteBinding(c *term.Node) {
 		}
 		return
 	}
+	if st.pcFacts != nil {
+		st.pcFacts[c] = struct{}{}
+	}
 	// range facts about an input variable: once both bounds are known and tighter than the
 	// variable's own interval, later reads see a range-restricted twin (interval analysis then
 	// narrows the arithmetic built on it). The twin is tied to the original by an equality.
@@ -389,9 +402,39 @@ func (st *State) noteBinding(c *term.Node) {
 	}
 }
 
+// refuted reports whether guard g contradicts a conjunct of the path condition syntactically.
+func (st *State) refuted(g *term.Node) bool {
+	if g == st.b.False {
+		return true
+	}
+	if len(st.pcFacts) == 0 {
+		return false
+	}
+	if _, ok := st.pcFacts[st.b.BNot(g)]; ok {
+		return true
+	}
+	if g.Op == term.OpBAnd {
+		for _, a := range g.Args {
+			if st.refuted(a) {
+				return true
+			}
+		}
+	}
+	if g.Op == term.OpBOr {
+		for _, a := range g.Args {
+			if !st.refuted(a) {
+				return false
+			}
+		}
+		return true
+	}
+	return false
+}
+
 func (st *State) rebuildSubst() {
 	st.subst = map[*term.Node]*term.Node{}
 	st.bounds = map[*term.Node][2]uint64{}
+	st.pcFacts = map[*term.Node]struct{}{}
 	for q := st.pc; q != nil; q = q.prev {
 		st.noteBinding(q.cond)
 	}
@@ -408,6 +451,15 @@ func (st *State) pushPC(c *term.Node) {
 		n = st.pc.n + 1
 	}
 	st.pc = &pcList{cond: c, prev: st.pc, n: n}
+}
+
+// noteImplied records a condition the path condition was shown to imply.
+func (st *State) noteImplied(c *term.Node) {
+	if c.IsConst() {
+		return
+	}
+	st.noteBinding(c)
+	st.pc = &pcList{cond: c, prev: st.pc, n: pcLen(st.pc), implied: true}
 }
 
 func (st *State) setModel(m *term.Model) {
@@ -470,6 +522,7 @@ func (st *State) choose(guards []*term.Node) int {
 		k := st.forced[st.forcedPos]
 		st.forcedPos++
 		st.decisions = append(st.decisions, k)
+		st.checkReplayedGuard(guards, k)
 		st.pushPC(guards[k])
 		return k
 	}
@@ -493,7 +546,7 @@ func (st *State) choose(guards []*term.Node) int {
 	var alts []altern
 	for i, g := range guards {
 		if ok, m := st.feasible(g); ok {
-			alts = append(alts, altern{i, m})
+			alts = append(alts, altern{i, m, g})
 		}
 	}
 	if len(alts) == 0 {
@@ -518,6 +571,20 @@ func (st *State) choose(guards []*term.Node) int {
 	st.pushPC(guards[k])
 	st.setModel(alts[0].model)
 	return k
+}
+
+// checkReplayedGuard: the last forced decision of a re-executed instruction must select the very
+// condition the choice point recorded for it; anything else is an engine fault (the path explored
+// would not be the one that was left open).
+func (st *State) checkReplayedGuard(guards []*term.Node, k int) {
+	if st.forcedPos != len(st.forced) || st.expectGuard == nil {
+		return
+	}
+	want := st.expectGuard
+	st.expectGuard = nil
+	if k < 0 || k >= len(guards) || guards[k] != want {
+		panic(Unsupported{"internal: replayed decision does not select the alternative recorded at the choice point"})
+	}
 }
 
 // concretize forks over the feasible values of a symbolic integer (bounded).
@@ -563,7 +630,7 @@ func (st *State) concretize(n *term.Node, what string) uint64 {
 			st.flushObligs()
 			cp := &choicePoint{trailMark: st.instrMark, gs: copyGs(st.gs), curID: st.cur.id,
 				pc:     &pcList{cond: st.b.BNot(eq), prev: st.pc, n: pcLen(st.pc) + 1},
-				prefix: append([]int(nil), st.decisions...), alts: []altern{{-1, mOther}}, serial: st.serial, mapDesc: st.mapDesc}
+				prefix: append([]int(nil), st.decisions...), alts: []altern{{-1, mOther, nil}}, serial: st.serial, mapDesc: st.mapDesc}
 			cp.lockOwner = map[*Object]int{}
 			for k, v := range st.lockOwner {
 				cp.lockOwner[k] = v
